@@ -659,7 +659,15 @@ pub fn gen_rr_text(rng: &mut Rng) -> String {
 /// among those that do not crash the unclaimed text parser on the unchanged tree: see DESIGN.md.
 pub fn damage_rr_text(rng: &mut Rng, text: &str) -> String {
     let toks: Vec<&str> = text.split_whitespace().collect();
-    match rng.below(7) {
+    match rng.below(8) {
+        7 => {
+            // a DS digest with an odd number of hex digits, or other records given a stray digit
+            if text.contains(" DS ") || text.contains("\tDS") {
+                format!("{}a", text.trim_end())
+            } else {
+                "odd.example. 60 IN DS 12345 8 2 abc".to_string()
+            }
+        }
         0 => {
             // drop a field
             let k = rng.below(toks.len());
